@@ -62,6 +62,13 @@ fn class_any(_: char) -> bool {
 fn class_nl(c: char) -> bool {
     matches!(c, '\r' | '\n')
 }
+/// classes that tell the two characters of a CRLF line ending apart
+fn class_cr(c: char) -> bool {
+    c == '\r'
+}
+fn class_notlf(c: char) -> bool {
+    c != '\n'
+}
 fn class_wide(c: char) -> bool {
     matches!(c, '\u{4E16}' | '\u{1F600}' | '\u{200B}' | '\u{0301}')
 }
@@ -75,6 +82,8 @@ fn class_of(name: &str) -> Result<Class, String> {
         "any" => class_any,
         "nl" => class_nl,
         "wide" => class_wide,
+        "cr" => class_cr,
+        "notlf" => class_notlf,
         _ => return Err(format!("unknown class `{name}`")),
     })
 }
